@@ -1,0 +1,12 @@
+//go:build !verif
+
+package tensor
+
+// pool-event hook of the external verification harness: compiled out unless built with -tags verif
+
+const (
+	verifBorrowInts = iota
+	verifReturnInts
+)
+
+func verifPoolEvent(kind int, is []int) {}
